@@ -96,9 +96,11 @@ def C10():
     from contracts.headers import SublineHeader
     from contracts.emitters import TextAsRtf
     from contracts import replayers as R
+    from contracts.validators_doc import TextToSequence, ProcessTextConversion
     return Property(
         "C10",
-        units=[ContractUnit(ConvertSpecialChars()), ContractUnit(SublineHeader()), ContractUnit(TextAsRtf())] + _text_units(),
+        units=[ContractUnit(ConvertSpecialChars()), ContractUnit(SublineHeader()), ContractUnit(TextAsRtf()), ContractUnit(TextToSequence()),
+               ContractUnit(ProcessTextConversion())] + _text_units(),
         level="proof",
         technique="per-character obligations over a symbolic code point (all scalar values at once) inside the loop invariant of the real "
                   "TextContent._convert_special_chars: ASCII output, signed 16-bit \\u range, decode(piece) == character incl. surrogate pairs",
@@ -108,7 +110,7 @@ def C10():
                      "the cell / paragraph / plain templates of TextContent._as_rtf and the subline_by heading use the escaped text exactly once (units "
                      "TextAsRtf, SublineHeader); the paragraph_format re-wrap in _encode_text receives only escaped runs (unit EncodeText)"],
         replayers={"row.py::TextContent._convert_special_chars": R.replay_convert_special_chars, "encoding/": R.replay_unicode_document,
-                   "services/": R.replay_unicode_document, "attributes.py::": R.replay_unicode_document, "row.py::TextContent._as_rtf": R.replay_unicode_document},
+                   "services/": R.replay_unicode_document, "attributes.py::": R.replay_unicode_document, "row.py::TextContent._as_rtf": R.replay_unicode_document, "input.py::": R.replay_unicode_document},
         design_ref="4/C10, A13",
     )
 
@@ -178,7 +180,7 @@ def C19():
             return out
     return Property(
         "C19",
-        units=[ValidatorUnits()] + [ContractUnit(u) for u in VX.UNITS] + [ContractUnit(u) for u in VD.UNITS],
+        units=[ValidatorUnits()] + [ContractUnit(u) for u in VX.UNITS] + [ContractUnit(u) for u in VD.UNITS if "C19" in u.serves],
         level="proof",
         technique="exceptional postconditions on the real validators: returns iff all elements legal (loop invariants over flat / jagged nested "
                   "values), raises only subclasses of ValueError; attribute existence taken from the real classes",
